@@ -5,7 +5,7 @@ func init() {
 		Explanation: "A3.MEAN: for every running mean of the renderer (an accumulator A with 'A = A.Add(x)' and a mean 'A.Scale(1/float64(B))') the divisor equals the number of accumulated samples on every path to every final or returned mean, including early exits (structured abstract interpretation, events = accumulations). W: every pixel write of a render worker is addressed by the worker's own pixel index (effect analysis). AM: composite objects keep the nearest hit. OL: every exported sampler option is read by library code.",
 		Trusted:     []string{"go/types and go/ast of x/tools v0.29.0", "the statement semantics modelled in checker/a3.go", "the recognition of running means by their shape (A = A.Add(x); A.Scale(1/float64(B)))"},
 		Assumptions: []string{"RayColor returns one radiance sample per call"},
-		Fixtures:    []string{"a3", "u"},
+		Fixtures:    []string{"a3", "u", "w"},
 		Run:         runC20,
 		SelfTest: []Mutation{
 			{Name: "early stop without counting the sample", File: "render3d/ray_renderer.go",
@@ -32,4 +32,6 @@ func runC20(c *Ctx) {
 		return n != "light.go" && n != "focus_point.go" && n != "material.go" // those are C19's
 	}, nil)
 	c.floor("ARGSWAP", 40)
+	c.runPartition("PARTITION", append(c.libPkgs(), c.fixturePkg("w")), nil)
+	c.floor("PARTITION", 0)
 }
